@@ -51,6 +51,11 @@ def judge_trace(ctx, path, label):
         ctx.note("trace validation stopped after %d rejections" % len(out["rejections"]))
 
 
+def _t(ctx, what):
+    import time
+    vlib.log("[%s] %s done at +%.0fs" % (ctx.pid, what, time.time() - ctx.t0))
+
+
 def run(ctx):
     q = ctx.quick
     ctx.level = "model_checking"
@@ -75,6 +80,7 @@ def run(ctx):
         ctx.check_model(r, cfg)
         ctx.require_coverage(r, ["MNext"])
 
+    _t(ctx, "model checking")
     # 2. spec -> code
     cases = ctx.path("cases.ndjson")
     n = 0
@@ -99,6 +105,7 @@ def run(ctx):
     for s in ob.sample_lines(cases, (0, n // 2, n - 1)):
         ctx.sample(s)
 
+    _t(ctx, "case replay")
     # 3. code -> spec
     tr2 = ctx.path("random_trace.ndjson")
     rep2 = vlib.run_driver("drv_filemeta", ["random", "--n", 150 if q else 3000, "--trace", tr2, "--dir", ctx.path("files")],
@@ -109,6 +116,7 @@ def run(ctx):
     ctx.cov["distinct_nontrivial"] += rep2["distinct"]
     ctx.extra_cov["trace_events_validated"] = rep["events"] + rep2["events"]
 
+    _t(ctx, "trace validation")
     # 4. binding self-tests: a deliberately wrong observation must be reported by the replay
     # comparison, and a corrupted recorded field must be rejected by the trace validator
     st = vlib.run_driver("drv_filemeta", ["replay", "--cases", cases, "--trace", ctx.path("st_trace.ndjson"), "--dir", ctx.path("files"),
